@@ -155,6 +155,7 @@ Definition conv_dec_chk (i : cfee_in) : option Z :=
   fold_left (fun acc o =>
      obind acc (fun a =>
        let '(amt, np, na) := o in
+       if Z.eqb na 0 then None (* big.Int Quo by zero panics: a stored NAV may have volume 0 *) else
        obind (chk (amt * np)) (fun m =>
          let s := a + dec_quo_int (dec_of_int m) na in
          if dec_okb s then Some s else None)))
